@@ -21,7 +21,8 @@ import (
 
 func init() {
 	families["finite_retain"] = family{gen: sampled(genFinite, 45, 1000), exec: execFiniteRetain}
-	families["valid_retain"] = family{gen: sampled(genValid, 150, 60), exec: execValidRetain}
+	// the long-backlog histories are few: all of them; of the others every 150th / 60th
+	families["valid_retain"] = family{gen: func(c *Ctx) { genValidBacklog(c); sampled(genValidHistories, 150, 60)(c) }, exec: execValidRetain}
 }
 
 // sampled runs every k-th case of a generator (k2 in the thorough tier): forcing collections is slow.
